@@ -12,7 +12,75 @@ let engine_escape (cases : string) =
     | Ok r -> Printf.printf "OK %s SPEC %s %d\n" (hex_of_bytes r) (hex_of_bytes spec) (if legal then 1 else 0)
     | Panic -> Printf.printf "PANIC SPEC %s %d\n" (hex_of_bytes spec) (if legal then 1 else 0))
 
+(* ---- floats as 16-digit hex bit patterns ---- *)
+let f_of_hex (h : string) : f64 = f_of_bits (z_of_int64_bits (Int64.of_string ("0x" ^ h)))
+let hex_of_f (x : f64) : string = Printf.sprintf "%016Lx" (int64_bits_of_z (f_to_bits x))
+
+let labels_string (l : (byte list * byte list) list) : string =
+  if l = [] then "-" else
+  String.concat "&" (List.map (fun (k, v) -> hex_of_bytes k ^ "=" ^ hex_of_bytes v)
+    (List.sort (fun (a, _) (b, _) -> compare (string_of_bytes a) (string_of_bytes b)) l))
+
+let event_string (e : event) : string =
+  let kind = match e.e_kind with KCounter -> "c" | KGauge true -> "g+" | KGauge false -> "g" | KObserver -> "o" in
+  kind ^ "," ^ hex_of_bytes e.e_name ^ "," ^ hex_of_f e.e_value ^ "," ^ labels_string e.e_labels
+
+let reason_name = function
+  | MalformedLine -> "malformed_line" | MixedTagging -> "mixed_tagging_styles"
+  | NotEnoughParts -> "not_enough_parts_after_colon" | InvalidExtAgg -> "invalid_extended_aggregate_type"
+  | MalformedComponent -> "malformed_component" | MalformedValue -> "malformed_value"
+  | InvalidSampleFactor -> "invalid_sample_factor" | IllegalEvent -> "illegal_event"
+let reason_order = [MalformedLine; MixedTagging; NotEnoughParts; InvalidExtAgg; MalformedComponent;
+                    MalformedValue; InvalidSampleFactor; IllegalEvent]
+
+let flags_of_int (i : int) : flags =
+  { f_dog = i land 1 <> 0; f_influx = i land 2 <> 0; f_librato = i land 4 <> 0; f_signalfx = i land 8 <> 0 }
+
+exception Oracle_miss of string
+
+(* oracle text: "hex:bits:err hex:bits:err ..." *)
+let oracle_of_string (s : string) : (byte list -> f64 * bool) =
+  let tbl = Hashtbl.create 16 in
+  List.iter (fun tok ->
+    match String.split_on_char ':' tok with
+    | [h; bits; e] -> Hashtbl.replace tbl h (f_of_hex bits, e = "1")
+    | _ -> ()) (split_ws s);
+  fun b -> let h = hex_of_bytes b in
+    match Hashtbl.find_opt tbl h with Some r -> r | None -> raise (Oracle_miss h)
+
+let ticks_string (ticks : tick list) : string =
+  let cnt p = List.length (List.filter p ticks) in
+  let errs = List.filter_map (fun r ->
+      let n = cnt (fun t -> t = TErr r) in
+      if n > 0 then Some (Printf.sprintf "%s:%d" (reason_name r) n) else None) reason_order in
+  Printf.sprintf "S=%d TE=%d TR=%d ERR=%s" (cnt (fun t -> t = TSample)) (cnt (fun t -> t = TTagErr))
+    (cnt (fun t -> t = TTagsRecv)) (if errs = [] then "-" else String.concat "," errs)
+
+let line_obs (pf : byte list -> f64 * bool) (fl : int) (l : byte list) : string =
+  try
+    match line_to_events pf (flags_of_int fl) l with
+    | Panic -> "PANIC"
+    | Ok (evs, ticks) ->
+      let es = if evs = [] then "-" else String.concat ";" (List.map event_string evs) in
+      Printf.sprintf "OK E=%s %s" es (ticks_string ticks)
+  with Oracle_miss h -> "ORACLE-MISS " ^ h
+
+let read_lines (path : string) : string array =
+  let acc = ref [] in iter_lines path (fun l -> acc := l :: !acc); Array.of_list (List.rev !acc)
+
+let engine_line (cases : string) (hxout : string) =
+  let ora = read_lines hxout in
+  let i = ref 0 in
+  iter_lines cases (fun c ->
+    let o = ora.(!i) in incr i;
+    let otxt = match String.index_opt o '\t' with
+      | Some k -> String.sub o (k + 1) (String.length o - k - 1) | None -> "" in
+    match split_ws c with
+    | [fl; h] -> print_endline (line_obs (oracle_of_string otxt) (int_of_string fl) (bytes_of_hex h))
+    | _ -> print_endline "BADCASE")
+
 let () =
   match Array.to_list Sys.argv with
   | _ :: "escape" :: cases :: _ -> engine_escape cases
-  | _ -> prerr_endline "usage: runner <engine> <casefile> [oracle]"; exit 2
+  | _ :: "line" :: cases :: hxout :: _ -> engine_line cases hxout
+  | _ -> prerr_endline "usage: runner <engine> <casefile> [hx output]"; exit 2
